@@ -226,6 +226,31 @@ Proof.
   destruct (clen s + (off s1 + n) <? 2 * (cap s1 - off s1)) eqn:E3; unfold clen in *; lia.
 Qed.
 
+(* ... and it is raised only by the code's overflow guard or by the allocator limit *)
+Lemma grow_toolarge s n p : inv s -> 0 <= n -> grow s n = GPanic p ->
+  p = PTooLarge /\ (2 * cap s + n > maxInt \/ blen s + n > maxalloc \/ 2 * cap s > maxalloc).
+Proof.
+  intros Hinv Hn H. pose proof (grow_panic s n p Hinv Hn H) as Hp. subst p.
+  split; [reflexivity|]. revert H. unfold Buffer.grow.
+  set (s1 := if (clen s =? 0) && negb (off s =? 0) then creset s else s).
+  assert (H1 : inv s1 /\ clen s1 = clen s /\ cap s1 = cap s /\ clen s + off s1 <= blen s).
+  { subst s1. assert (Hinv' := Hinv). destruct Hinv' as (Ho & Hc & Hnil).
+    destruct ((clen s =? 0) && negb (off s =? 0)) eqn:E.
+    - split; [apply inv_creset; exact Hinv|]. change (clen (creset s)) with 0.
+      change (cap (creset s)) with (cap s). change (off (creset s)) with 0. unfold clen in *. lia.
+    - split; [exact Hinv|]. unfold clen. lia. }
+  destruct H1 as ((Ho1 & Hcap1 & Hnil1) & Hm1 & Hc1 & Hb1).
+  destruct (n <=? cap s1 - blen s1); [discriminate|].
+  destruct (isnil s1 && (n <=? smallBufferSize)); [discriminate|].
+  destruct (n <=? cap s1 / 2 - clen s) eqn:E1.
+  { cbn [cap]. destruct (clen s + n <=? cap s1); discriminate. }
+  destruct (cap s1 >? maxInt - cap s1 - n) eqn:E2; [intros _; left; lia|].
+  destruct (grow_slice_cap (clen s) (cap s1 - off s1) (off s1 + n) >? maxalloc) eqn:E3.
+  { intros _. right. unfold grow_slice_cap in E3.
+    destruct (clen s + (off s1 + n) <? 2 * (cap s1 - off s1)) eqn:E4; lia. }
+  cbn [cap]. destruct (clen s + n <=? rup (grow_slice_cap (clen s) (cap s1 - off s1) (off s1 + n))); discriminate.
+Qed.
+
 Lemma ensure_ok s n s' : inv s -> 0 <= n -> ensure s n = GOk s' ->
   inv s' /\ n <= cap s' - blen s' /\ contents s' = contents s /\
   (last_read s = 0 -> last_read s' = 0) /\ (n <= cap s - blen s -> s' = s).
